@@ -437,6 +437,26 @@ func c04Fixed(c *core.Ctx, run func(i int64, p *lang.Program, tag string)) int64
 								run(i, p, "selector_target_product")
 							}
 							i++
+							// the same bind statement placed inside a block body (candidates = toplevel blocks completed so far)
+							if nbind == 1 && after == 0 {
+								if c.Mine(i) {
+									p := &lang.Program{}
+									for j := 0; j < ncand; j++ {
+										p.Stmts = append(p.Stmts, blk("srv", fmt.Sprintf("n%d", j+1), j+1))
+									}
+									if others&1 != 0 {
+										p.Stmts = append(p.Stmts, blk("other", "", 100))
+									}
+									host := blk("srv", "host", 50)
+									host.Body = append(host.Body, &lang.Stmt{Kind: lang.SBind, Name: "srv", Sel: sel, Target: tgt})
+									if others&2 != 0 {
+										host.Body = append(host.Body, &lang.Stmt{Kind: lang.SExpr, E: lang.Assign("late", lang.Lit(lang.IntLit(1)))})
+									}
+									p.Stmts = append(p.Stmts, host)
+									run(i, p, "bind_inside_block")
+								}
+								i++
+							}
 						}
 					}
 				}
